@@ -91,3 +91,12 @@ func init() {
 	plans["C19"] = simple("programs of 20-120 steps of the history engine with mutation steps interleaved (1 in 4): overwriting previously returned Bytes/BytesMontgomery/Scalar.Bytes slices, ExtendedCoordinates elements (via Set and raw), Points returned by NewIdentityPoint/NewGeneratorPoint (Set, Add, raw limbs), NewScalar results, One()/Zero() receivers; each mutation is followed by a probe round with model-known answers ([k]B through ScalarBaseMult, VarTimeDoubleScalarBaseMult and ScalarMult on a fresh generator, constructors, a decode, SqrtRatio(2,1), Bytes of all pool members) and a package-globals digest comparison; returned slices/elements are checked not to share memory with each other or with the Point; repeated (operation, argument values) observations must give identical bytes; in every second worker process the first use of the precomputed tables happens after mutations. distinct by (step or probe, values).", 10000)
 	plans["C19"].custom = digestsAgree
 }
+
+func init() {
+	plans["C03"] = &plan{
+		stages: []stage{{config: "instr", mode: "source-trace"}},
+		rule: "two-run trace equality. For each of the constant-time entry points (ScalarMult, ScalarBaseMult, MultiScalarMult with n=0..3, all Point arithmetic/comparison/encoding/export, valid-input decoders, all Scalar and field.Element operations incl. Select/Swap with both cond values) assignment 0 is the reference; assignments 1..N walk adversarial secret classes (scalar 0/1/l-1/digit extremes, identity, identity and order-2 point with literal-zero X limbs, all 8 small-order points, generator, rescaled/non-canonical-limb points, equal operands, field 0/+-1/i/p-19/18/d in every recipe, limb-maximal elements, cond 0/1) and then uniform values; the leakage trace (function entries, every branch/loop/short-circuit/composite-comparison outcome, case and range entries, every non-constant index/slice bound/make length, every non-constant shift count and divisor, arguments of calls to packages not on the constant-time allow-list) recorded by a source-instrumented build generated from the working tree must be identical to the reference; on a difference the function of the deciding event is reported, its events are removed from both traces and the comparison repeated. Events in isReduced (decoder validity decision) are exempt; VarTime entry points are not driven. distinct by (entry point, assignment, class, input bytes).",
+		assumptions: append([]string{"leakage model: program counter, memory addresses and the listed operand values; micro-architectural effects (e.g. data-dependent multiplier latency) are out of reach of this monitor"}, commonAssumptions...),
+		minEvals:    1000,
+	}
+}
